@@ -1,2 +1,10 @@
 #!/bin/sh
-exit 0
+# Build the LibTooling fact extractor (offline; clang 14 / llvm 14 from the image).
+set -e
+cd "$(dirname "$0")"
+python3 -c "
+import sys; sys.path.insert(0,'.')
+from cpv import build
+build.ensure_extractor()
+print('cpv-extract ready:', build.EXTRACT)
+"
